@@ -57,6 +57,7 @@ def run(ctx):
   sharded_triple(ctx)
   sharded_update_layout(ctx)
   sharded_record_conversion(ctx)
+  graft_accumulator_agreement(ctx)
   sketchy_buffer_widths(ctx)
   sketchy_update_shapes(ctx)
   from . import C13
@@ -104,6 +105,38 @@ def sharded_record_conversion(ctx):
       ctx.ob('C07.R2', ft.short, f'view of `{n}`', rf2.get(n) is sym('slot', 'l_' + n),
              f'the parameter view must expose the local record\'s `{n}` under the same name; got `{show(rf2.get(n, NONE), maxdepth=3)[:100]}`', ctx.loc(ft),
              sample=f'{n} = local_stat.{n}')
+
+
+def graft_accumulator_agreement(ctx):
+  """R2g: for every member of GraftingType, init allocates the grafting accumulator (diagonal_statistics as an array
+  rather than []) exactly when `_transform_grad` accumulates squared gradients into it for that graft type.  The two sites
+  decide independently (an exclusion list in init, an if / elif chain in the transform): a member missing from one of them
+  is an accepted configuration whose first update dies with a TypeError ([] + array), or an accumulator that is never
+  written."""
+  from . import C02
+  m = ctx.model
+  fpred = m.func(MOD, F + '._graft_type_has_diagonal_statistics')
+  ftg = m.func(MOD, F + '._transform_grad')
+  ctx.analysed(fpred, ftg)
+  ev0 = evaluator(m)
+  members = [f_ for f_, _, _ in m.cls(MOD, 'GraftingType').fields]
+  ctx.need('C07.R2', len(members), 5, 'GraftingType members')
+  v = list(C02.valuations(False, 0))[0][1]
+  for g in members:
+    gterm = enum_member(ev0, m, MOD, 'GraftingType', g)
+    b = evaluator(m, factory_cfg={'graft_type': gterm}).run(fpred)
+    if not (is_const(b) and isinstance(cval(b), bool)):
+      raise AnalysisError(f'_graft_type_has_diagonal_statistics does not fold to a constant for GraftingType.{g}: {show(b, maxdepth=3)[:80]}')
+    ev2 = evaluator(m, factory_cfg={'graft_type': gterm}, decide=C02.make_decider(v), opaque=C02.OPAQUE)
+    r = ev2.run(ftg)
+    ctx.evaluations += 1
+    rf = rec_fields(r.args[1]) if r.op == 'tuple' and len(r.args) == 2 else None
+    if rf is None:
+      raise AnalysisError('_transform_grad does not return (update, ParameterStats)')
+    uses = any(is_ext_call(x, 'jax.numpy.square') or (x.op == 'bin' and x.args[0] == '**' and is_const(x.args[2], 2)) for x in walk(rf['diagonal_statistics']))
+    ctx.ob('C07.R2', fpred.short, f'accumulator allocated iff used [GraftingType.{g}]', cval(b) == uses,
+           f'for GraftingType.{g} init {"allocates" if cval(b) else "does not allocate"} diagonal_statistics but _transform_grad '
+           f'{"accumulates squared gradients into it" if uses else "leaves it untouched"}', ctx.loc(fpred), sample=f'{g}: {"array" if uses else "[]"}')
 
 
 def sketchy_buffer_widths(ctx):
@@ -606,7 +639,8 @@ def sharded_triple(ctx):
   fis = [m.func(MOD, F + '.' + q) for q in names]
   ctx.analysed(*fis)
   ev0 = evaluator(m)
-  for fd_avg, gtm, gfm, quant in itertools.product([False, True], repeat=4):
+  # frequent directions with and without gradient averaging are different layouts (avg_grad is an array only with both)
+  for (fd_avg, avg_), gtm, gfm, quant in itertools.product([(False, False), (True, True), (True, False)], [False, True], [False, True], [False, True]):
     if gfm and not (fd_avg and gtm):
       continue
     recs = {}
@@ -619,7 +653,7 @@ def sharded_triple(ctx):
         if c.op in ('sym',) and c.args[-1] in ('params_flat', 'param_pspec_flat'):
           return True
         return None
-      d = Decider(truth={'frequent_directions': fd_avg, 'average_grad': fd_avg, 'generate_training_metrics': gtm, 'generate_fd_metrics': gfm,
+      d = Decider(truth={'frequent_directions': fd_avg, 'average_grad': avg_, 'generate_training_metrics': gtm, 'generate_fd_metrics': gfm,
                          'best_effort_memory_usage_reduction': quant, 'reset_preconditioner': False, 'compression_rank': fd_avg,
                          'reuse_preconditioner': fd_avg},
                   cmps={('compression_rank', '!=', 0): fd_avg, ('compression_rank', '<=', 0): not fd_avg, ('exponent_override', '==', 0): True},
@@ -634,7 +668,7 @@ def sharded_triple(ctx):
       if len(cons) != 1:
         raise AnalysisError(f'{fi.short}: expected one LocalShardedParameterStats constructor, found {len(cons)}')
       recs[fi] = cons[0]
-    vt = f'fd+avg={int(fd_avg)},metrics={int(gtm)},fd_metrics={int(gfm)},quant_momentum={int(quant)}'
+    vt = f'fd={int(fd_avg)},avg={int(avg_)},metrics={int(gtm)},fd_metrics={int(gfm)},quant_momentum={int(quant)}'
     base = recs[fis[0]]
     k0 = _decl_skeleton(m, base.result)
     for fi in fis[1:]:
@@ -729,7 +763,10 @@ def _counter_semantic(m, fi, truth, cmps, extra0):
       return None
     name = idx.args[1]
     final = ev.last_scope.vars.get(name)
-    loops = [x for x in walk(final) if x.op == 'loop' and x.args[1] == name and x.args[0] == idx.args[0]] if final is not None else []
+    loops = list(dict.fromkeys(x for x in walk(final) if x.op == 'loop' and x.args[1] == name and x.args[0] == idx.args[0])) if final is not None else []
+    if skip and not loops and final is not None:
+      out.append(True)              # the loop leaves the counter alone: the evaluator folded it to its initial value
+      continue
     if len(loops) != 1:
       return None
     body = loops[0].args[3]
